@@ -19,6 +19,13 @@ Cases == {[m |-> m.id, kind |-> m.kind, st |-> s, ct |-> c, body |-> b, place |-
          \cup {[m |-> m.id, kind |-> m.kind, st |-> s, ct |-> c, body |-> "valid", place |-> p] :
                  m \in {x \in Methods : x.kind \in MsKinds}, s \in {207, 200, 404}, c \in {"xml", "none"},
                  p \in {"resp404", "resp403", "resp500", "ps403", "ps500", "opt404"}}
+\* number of properties each multi-status call reads (the recorder's documents carry exactly these, mandatory ones first)
+NProps(id) == CASE id \in {"dav.Stat", "dav.ReadDir", "cal.FindCalendars", "card.FindAddressBooks"} -> 5
+                [] id \in {"cal.QueryCalendar", "cal.MultiGetCalendar", "card.QueryAddressBook", "card.MultiGetAddressBook"} -> 4
+                [] OTHER -> 1
+XCases == {[m |-> m.id, kind |-> m.kind, st |-> 207, ct |-> "xml", body |-> "valid", place |-> XPlace(k, c)] :
+             m \in {x \in Methods : x.kind \in MsKinds}, k \in 1..5, c \in (IF Big THEN {401, 403, 423, 500, 507} ELSE {403, 507})}
+ASSUME \A c \in XCases : ErrExpected(c.kind, c)
 \* payloads that are well-formed XML but carry an unparsable object: the call must fail, not panic
 PayloadMethods == {"cal.QueryCalendar", "cal.MultiGetCalendar", "cal.GetCalendarObject", "card.QueryAddressBook", "card.MultiGetAddressBook", "card.GetAddressObject"}
 PayloadCases == {[m |-> m.id, kind |-> m.kind, st |-> IF m.kind = "getobj" THEN 200 ELSE 207, ct |-> IF m.kind = "getobj" THEN "obj" ELSE "xml", body |-> b, place |-> "none"] :
@@ -28,7 +35,7 @@ ASSUME \A c \in Cases : (c.kind = "plain" /\ Is2xx(c.st)) => ~ErrExpected(c.kind
 ASSUME \A c \in Cases : ~Is2xx(c.st) => ErrExpected(c.kind, c) /\ CodeExpected(c) = c.st
 ASSUME \A c \in Cases : (c.kind \in MsKinds /\ c.st = 207 /\ c.body = "valid" /\ c.place \in {"none", "opt404"}) => ~ErrExpected(c.kind, c)
 ASSUME \A c \in PayloadCases : ErrExpected(c.kind, c)
-ASSUME ndJsonSerialize(IOEnv.OUT \o "/c14.ndjson", SetToSeq(Cases \cup PayloadCases))
+ASSUME ndJsonSerialize(IOEnv.OUT \o "/c14.ndjson", SetToSeq(Cases \cup PayloadCases \cup {c \in XCases : \E k \in 1..NProps(c.m) : \E code \in {401, 403, 423, 500, 507} : c.place = XPlace(k, code)}))
 ASSUME PrintT(<<"COUNTS", Cardinality(Cases \cup PayloadCases), Cardinality(Methods)>>)
 VARIABLE x
 Init == x = 0
